@@ -74,6 +74,8 @@ type State struct {
 	Old         *State // entry snapshot for old()
 	Ghosts      map[string]*Term
 	Events      []string // ordered effect log (lock/unlock/calls) for path obligations
+	monObjs  map[string]monObj
+	lockSnap map[string]*State
 }
 
 type loopEntry struct {
@@ -110,6 +112,14 @@ func (s *State) clone() *State {
 	n.InLoop = make(map[*ssa.BasicBlock]*loopEntry, len(s.InLoop))
 	for k, v := range s.InLoop {
 		n.InLoop[k] = v
+	}
+	n.monObjs = make(map[string]monObj, len(s.monObjs))
+	for k, v := range s.monObjs {
+		n.monObjs[k] = v
+	}
+	n.lockSnap = make(map[string]*State, len(s.lockSnap))
+	for k, v := range s.lockSnap {
+		n.lockSnap[k] = v
 	}
 	n.Trace = append([]string(nil), s.Trace...)
 	n.Events = append([]string(nil), s.Events...)
